@@ -276,6 +276,26 @@ class TSeq(Sort):
         return st.new_ref(c, name)
 
 
+class Mark:
+    """opaque contract-level token for an object the contract models through hooks only (never iterated, compared or
+    indexed by the engine itself); equality is by value"""
+    __slots__ = ('kind', 'data')
+
+    def __init__(self, kind, *data):
+        self.kind, self.data = kind, data
+
+    def __eq__(self, o):
+        return isinstance(o, Mark) and o.kind == self.kind and len(o.data) == len(self.data) and \
+            all((a is b) or (not hasattr(a, 'eq') and a == b) or (hasattr(a, 'eq') and hasattr(b, 'eq') and a.eq(b))
+                for a, b in zip(self.data, o.data))
+
+    def __hash__(self):
+        return hash(self.kind)
+
+    def __repr__(self):
+        return 'Mark(%s%s)' % (self.kind, ''.join(', %r' % (d,) for d in self.data))
+
+
 class Coll:
     """abstract ordered collection (dict / list) of heap objects of symbolic size; elements are not enumerated:
     a loop over it executes its body once for one arbitrary element ``Obj(path + '.$e')``"""
@@ -402,6 +422,7 @@ class State:
         self._nloc = itertools.count()
         self.initial = {}           # shared: lazily created initial values (path -> value)
         self.initial_locs = {}      # shared: initial contents of lazily created locations
+        self.initial_assumes = {}   # shared: type assumptions made when an initial value was created (path -> [cond])
         self.havoc_pats = []        # wildcard patterns havoced so far on this path
         self._making_initial = False
 
@@ -420,6 +441,7 @@ class State:
         s._nloc = self._nloc
         s.initial = self.initial
         s.initial_locs = self.initial_locs
+        s.initial_assumes = self.initial_assumes
         s.havoc_pats = list(self.havoc_pats)
         s._making_initial = False
         return s
@@ -478,10 +500,18 @@ class State:
         if path not in self.initial:
             prev = self._making_initial
             self._making_initial = True
+            n0 = len(self.pc)
             try:
                 self.initial[path] = sort.make(self, path)
             finally:
                 self._making_initial = prev
+            self.initial_assumes[path] = list(self.pc[n0:])
+        else:
+            # created on another path: the sort's assumptions (sizes >= 0, integrality) hold here as well
+            have = {id(c) for c in self.pc}
+            for cnd in self.initial_assumes.get(path, ()):
+                if id(cnd) not in have:
+                    self.pc.append(cnd)
         v = self.initial[path]
         if isinstance(v, Ref) and v.loc not in self.locs:
             self.locs[v.loc] = self.initial_locs[v.loc]
